@@ -170,12 +170,12 @@ class NPFacade:
 
     def isfinite(self, a, *args, **kw):
         if isinstance(a, (SymReal, SymBool)):
-            return True
+            return np.True_
         if isinstance(a, np.ndarray) and a.dtype == object:
             flat = np.asarray(a).view(np.ndarray).reshape(-1)
             vals = [True if isinstance(x, (SymReal, SymBool)) else bool(np.isfinite(x)) for x in flat]
             if a.shape == ():
-                return vals[0]
+                return np.bool_(vals[0])
             return np.array(vals, dtype=bool).reshape(a.shape)
         return np.isfinite(a, *args, **kw)
 
